@@ -29,6 +29,7 @@ func init() {
 			r.Cov["per_family"] = m.Counts
 			r.Cov["outcomes"] = m.Outc
 			r.Cov["exhaustive"] = !m.CapHit
+			attachSecondary(r)
 			r.Assume = []string{
 				"struct fields and getters are compared, never String() output",
 				"response direction: the Behera value without any field is checked with the strict parser only (go-ldap v3.4.6 DecodeControl dereferences a nil value there: a go-ldap defect)",
